@@ -72,6 +72,9 @@ class Canary(object):
             f(*a, **kw)
 
 
+_REAL_GET_AVAILABLE_SPACE = fileutil.get_available_space
+
+
 class ModelDisk(object):
     """capacity - bytes present under sharedir - reserved; None capacity = unlimited."""
     def __init__(self, capacity, used_fn):
@@ -115,7 +118,23 @@ class Store(object):
         self.imm = {}
         self.mut = {}
         self.writers = {}
-        fileutil.get_available_space = self.disk.available   # seam; process-local (forked child)
+        if cfg.get("statvfs"):
+            # lower seam: the real fileutil.get_available_space / get_disk_stats run on a simulated statvfs() whose
+            # free-for-root and free-for-ordinary-users figures differ (ext4 root reserve, quotas)
+            import collections
+            SV = collections.namedtuple("SV", "f_frsize f_blocks f_bfree f_bavail")
+            disk, root_extra = self.disk, cfg.get("root_reserve", 0)
+
+            def statvfs(path):
+                disk.calls += 1
+                if disk.capacity is None:
+                    return SV(1, 2 ** 42, 2 ** 41, 2 ** 41)
+                free_user = max(0, disk.capacity - disk.used_fn())
+                return SV(1, disk.capacity + root_extra + 10 ** 6, free_user + root_extra, free_user)
+            os.statvfs = statvfs                                  # process-local (forked child)
+            fileutil.get_available_space = _REAL_GET_AVAILABLE_SPACE
+        else:
+            fileutil.get_available_space = self.disk.available   # seam; process-local (forked child)
         self.viol = []
         self.stats = {"ops": 0, "faults": {}, "probes": {}}
         self.nodeid = b"\x5a" * 20
@@ -195,7 +214,11 @@ class Store(object):
     def op_alloc(self, si_i, shnums, size, sec_i, conn):
         si = si_of(si_i)
         now = R.seconds()
-        avail_before = self.ss.get_available_space()
+        # what an unprivileged process may still use, from the harness's own disk model (not from the server's own reckoning)
+        if self.disk.capacity is None:
+            avail_before = 2 ** 40
+        else:
+            avail_before = max(0, self.disk.capacity - self.model_used() - self.cfg.get("reserved", 0))
         inprog_before = sum(w["size"] for w in self.writers.values() if not w["closed"])
         real_alloc_before = self.ss.allocated_size()
         if real_alloc_before != inprog_before:
@@ -792,6 +815,8 @@ def gen_case(seed, tier, profile):
         cfg["capacity"] = ch.pick("config", "cap", [0, 200, 1000, 1500, 3000, 10000])
         cfg["reserved"] = ch.pick("config", "res", [0, 0, 100, 500, 5000])
         cfg["readonly"] = ch.chance("config", "ro", 0.15)
+        cfg["statvfs"] = ch.chance("config", "statvfs", 0.4)
+        cfg["root_reserve"] = ch.pick("config", "rootres", [0, 500, 5000])
     sizes = [0, 1, 7, 64, 100, 300, 1000]
     ops = []
     nsec = 3
